@@ -74,6 +74,17 @@ def gen_script(rng):
         "codec": rng.choice([None, None, 1]),
         "partitioner": partitioner,
     }
+    # further producers with settings of their own SHARING the client: the frame a broker receives must
+    # carry the acks / timeout of the producer whose messages it holds
+    producers = []
+    stagger = rng.random() < 0.12
+    # (one Producer never has two produce requests in flight: overlapping discoveries need several callers)
+    if stagger or rng.random() < 0.3:
+        prod["ack_timeout"] = rng.choice([1000, 1500, 3000])
+        for _ in range(rng.choice([1, 1, 2])):
+            p2 = dict(prod)
+            p2.update({"req_acks": rng.choice([1, -1, -1, 0]), "ack_timeout": rng.choice([250, 500, 2500, 5000, 30000]), "codec": rng.choice([None, 1])})
+            producers.append(p2)
     steps = []
     plots = []
     span = rng.choice([3, 10, 25]) * ts
@@ -81,12 +92,34 @@ def gen_script(rng):
     times = sorted(round(rng.random() * span, 3) for _ in range(nsend))
     if rng.random() < 0.7:
         times[0] = 0.0
+    if stagger:
+        # several version discoveries overlap: requests issued at different moments while the table is
+        # unknown each start a discovery of their own; the earlier one gives up (nobody answers its rounds:
+        # 3 failures of (known brokers + bootstrap hosts) x timeout), a later one has a request in flight at
+        # that moment which is answered LATE - after the earlier fell back; sends before, between and after
+        m = rng.choice([3 * (brokers + 1), 3 * (brokers + 1), 3 * (brokers + 1), 3 * brokers, 3, 6])  # rounds until the first gives up
+        phi = rng.choice([0.15, 0.3, 0.5, 0.7, 0.85])  # phase of the later discovery's requests
+        late = round(rng.choice([x for x in (0.3, 0.5, 0.7, 0.9, 0.97) if x > 1 - phi] + [0.97]) * ts, 3)
+        nsend = rng.choice([5, 6, 8])
+        times = [0.0] + sorted(round((rng.randrange(0, m) + phi) * ts, 3) for _ in range(rng.choice([1, 1, 2])))
+        times += sorted(round(m * ts + rng.uniform(0.0, 4.0) * ts, 3) for _ in range(nsend - len(times)))
     for sid, t in enumerate(times):
         topic = rng.choice([tp["name"] for tp in topics])
         key = ("6b%02x" % rng.randrange(6)) if (partitioner == "hashed" or rng.random() < 0.3) else None
-        steps.append({"at": t, "do": "send", "sid": sid, "topic": topic, "key": key, "n": rng.choice([1, 1, 2, 3]), "size": rng.choice([0, 0, 30, 300])})
-    for _ in range(rng.choice([0, 1, 1, 2, 2, 3])):
-        plot = rng.choice(["transport", "transport", "transport+apiv", "transport+apiv", "transport+apiv", "hang", "hang", "apiv-at-start", "errors", "kill", "fetch",
+        st = {"at": t, "do": "send", "sid": sid, "topic": topic, "key": key, "n": rng.choice([1, 1, 2, 3]), "size": rng.choice([0, 0, 30, 300])}
+        if producers:
+            st["producer"] = rng.randrange(len(producers) + 1)
+        steps.append(st)
+    if stagger:
+        plots.append("staggered-discovery")
+        e = round((m - 1 + phi * rng.choice([0.2, 0.5, 0.9])) * ts, 3)
+        # (in front of the sends: steps at the same instant run in list order)
+        steps[0:0] = [{"at": 0.0, "do": "inject", "action": "silent", "api": "ApiVersions", "times": None, "block": False,
+                       "t_from": 0.0, "t_to": e, "name": "apiversions-unanswered-from-start"},
+                      {"at": 0.0, "do": "inject", "action": "delay", "api": "ApiVersions", "times": None, "seconds": late,
+                       "t_from": e, "t_to": round(e + rng.choice([1, 2, 4]) * ts, 3), "name": "apiversions-answered-late"}]
+    for _ in range(rng.choice([0, 0, 1]) if stagger else rng.choice([0, 1, 1, 2, 2, 3])):
+        plot = rng.choice(["transport", "transport", "transport+apiv", "transport+apiv", "transport+apiv", "hang", "hang", "apiv-at-start", "errors", "kill", "fetch", "fetch",
                            "apiv-fault", "apiv-fault", "metadata-fault", "unreachable", "slow", "restart", "delist", "move"])
         plots.append(plot)
         if plot in ("transport", "transport+apiv"):
@@ -126,7 +159,10 @@ def gen_script(rng):
             if rng.random() < 0.7:
                 steps.append({"at": round(t0 + rng.choice([0.5, 3, 10]), 3), "do": "start_broker", "node_id": node})
         elif plot == "fetch":
-            steps.append({"at": round(rng.random() * span, 3), "do": "fetch", "label": "mid"})
+            # callers with fetch settings of their own (two consumers on one client): tagged by max_bytes
+            for k in range(rng.choice([1, 2, 3])):
+                steps.append({"at": round(rng.random() * span, 3), "do": "fetch", "label": "mid%d" % k, "tag": 1 + len([x for x in steps if x["do"] == "fetch"]),
+                              "max_wait_time": rng.choice([0, 10, 100, 250, 500]), "min_bytes": rng.choice([0, 1, 1, 64, 4096, 65536])})
         elif plot == "apiv-fault":
             # the ApiVersions exchange itself goes wrong: error code, connection lost before / after / in the middle of the reply, late reply
             act = rng.choice(["error", "error", "drop_before", "drop_after", "drop_mid", "delay"])
@@ -178,7 +214,7 @@ def gen_script(rng):
             "cluster": {"brokers": brokers, "topics": topics, "chunked": rng.random() < 0.15, "api": api,
                         "connect_delay": 0.05 if api_kind == "old-close" else rng.choice([0, 0, 0.01])},
             "client": {"timeout": timeout, "enable_protocol_version_discovery": rng.random() < 0.88},
-            "producer": prod, "warm": rng.random() < 0.2, "steps": steps, "until": 200.0, "final_fetch": True}
+            "producer": prod, "producers": producers, "warm": rng.random() < 0.2, "steps": steps, "until": 200.0, "final_fetch": True}
 
 
 class Judged(object):
@@ -226,11 +262,26 @@ def judge(r, hist):
         if e.get("kind") == "request" and e.get("api_key") == 18:
             hist["xl:apiversions-request-" + str(e.get("fate"))] += 1
     sends_by_first = {s["values"][0]: s for s in r.sends.values()}
-    codec = sc["producer"].get("codec") or 0
+    all_prod = [sc["producer"]] + list(sc.get("producers") or [])
+    send_of_value = {v: s for s in r.sends.values() for v in s["values"]}
     frames = X.produce_frames(cluster)
     for e, ver, parts in frames:
         b = cluster.brokers[e["broker"]]
         magics = []
+        # whose messages does the frame carry?  (a Producer sends its own batches: one owner per frame)
+        owners = sorted(set(send_of_value[m["value"]].get("producer", 0) for _t, _p, _sh, deep in parts if isinstance(deep, list)
+                            for m in deep if m["value"] in send_of_value))
+        if len(owners) > 1:
+            j.failures.append({"what": "Produce frame (n=%d) mixes messages of producers %r" % (e["n"], owners), "tags": ["c04-xl:payload"]})
+        owner = all_prod[owners[0]] if owners else sc["producer"]
+        codec = owner.get("codec") or 0
+        if owners:
+            want = (owner["req_acks"], owner.get("ack_timeout", 1000))
+            got = (e["request"].get("acks"), e["request"].get("timeout"))
+            hist["xl:produce-frame-request-fields-checked" + (":several-producers-on-the-client" if len(all_prod) > 1 else "")] += 1
+            if got != want:
+                j.failures.append({"what": "Produce v%d frame (n=%d) carrying the messages of producer #%d (req_acks=%r, ack_timeout=%r) says acks=%r timeout=%r: "
+                                           "not the values the caller supplied" % (ver, e["n"], owners[0], want[0], want[1], got[0], got[1]), "tags": ["c04-xl:request-fields"]})
         for topic, pid, shallow, deep in parts:
             magics += [m["magic"] for m in shallow]
             if isinstance(deep, list):
@@ -245,12 +296,29 @@ def judge(r, hist):
                     j.failures.append({"what": "Produce frame (n=%d): message attributes %d with producer codec %r" % (e["n"], m["attributes"], codec), "tags": ["c04-xl:attributes"]})
         hist["xl:produce-frame:v%d:magics=%s" % (ver, ",".join(str(x) for x in sorted(set(magics))) or "-")] += 1
         _ask_version(j, e, b, 0, ver, magics, first_ok, hist)
+    if first_ok is not None and any(e["n"] < first_ok for e, _v, _p in frames) and any(e["n"] > first_ok for e, _v, _p in frames):
+        hist["xl:produce-frames-before-AND-after-the-first-answered-ApiVersions"] += 1
+    fetch_calls = {f["max_bytes"]: f for f in r.fetches if "max_bytes" in f}
+    hist["xl:fetch-calls-with-distinct-settings=%d" % len(set((f.get("max_wait_time"), f.get("min_bytes")) for f in r.fetches))] += 1
     for e in cluster.log:
         if e.get("kind") == "request" and e.get("api_key") == 1 and e.get("request") is not None:
             hist["xl:fetch-frame:v%d" % e["version"]] += 1
             _ask_version(j, e, cluster.brokers[e["broker"]], 1, e["version"], [], first_ok, hist)
+            # the caller's request-level fields: the call is identified by the max_bytes it asked for
+            rq = e["request"]
+            mbs = sorted(set(p["max_bytes"] for t in rq.get("topics", []) for p in t["partitions"]))
+            if len(mbs) != 1 or mbs[0] not in fetch_calls:
+                j.failures.append({"what": "Fetch frame (n=%d) asks for max_bytes %r: no fetch call of the script did" % (e["n"], mbs), "tags": ["c04-xl:request-fields"]})
+                continue
+            f = fetch_calls[mbs[0]]
+            hist["xl:fetch-frame-request-fields-checked"] += 1
+            got = (rq.get("replica_id"), rq.get("max_wait_time"), rq.get("min_bytes"))
+            want = (-1, f["max_wait_time"], f["min_bytes"])
+            if got != want:
+                j.failures.append({"what": "Fetch v%d frame (n=%d) of the call %r (max_wait_time=%r, min_bytes=%r) says replica_id=%r max_wait_time=%r min_bytes=%r: "
+                                           "not the values the caller supplied" % (e["version"], e["n"], f["label"], want[1], want[2], got[0], got[1], got[2]),
+                                   "tags": ["c04-xl:request-fields"]})
     # replies: an acknowledged send reports what the broker answered
-    acks = sc["producer"]["req_acks"]
     appended = collections.defaultdict(list)  # (topic, partition, base_offset) -> [(n_sent, values)]
     for e, _ver, _parts in frames:
         if e.get("fate") == "answered":
@@ -262,6 +330,7 @@ def judge(r, hist):
             continue
         _t, n, _ok, res = outs[0]
         s = r.sends[sid]
+        acks = all_prod[s.get("producer", 0)]["req_acks"]
         if res is None:
             if acks != 0:
                 j.failures.append({"what": "send %d succeeded with None, req_acks=%r" % (sid, acks), "tags": ["c04-xl:reply-decode"]})
@@ -321,6 +390,8 @@ def summarize(r, hist):
     if sc["cluster"].get("chunked"):
         hist["xl:chunked-delivery"] += 1
     hist["xl:codec=%s:acks=%s" % (sc["producer"].get("codec") or 0, sc["producer"]["req_acks"])] += 1
+    for p2 in sc.get("producers") or []:
+        hist["xl:further-producer:acks=%s:ack_timeout=%s" % (p2["req_acks"], p2.get("ack_timeout"))] += 1
     for st in sc["steps"]:
         if st["do"] == "inject":
             hist["xl:step-inject:" + st.get("name", st["action"])] += 1
@@ -334,6 +405,11 @@ def summarize(r, hist):
             hist["xl:send-" + ("ok" if outs[0][2] else "fail:" + str(res[1] if isinstance(res, (tuple, list)) else res))] += 1
     for _n, state in r.api_states:
         hist["xl:client-version-state-at-send=" + state] += 1
+    seq = [st for _n, st in r.api_states]
+    if "fallback" in seq and "table" in seq[seq.index("fallback"):]:
+        hist["xl:sends-in-fallback-THEN-sends-with-table (a later discovery was answered)"] += 1
+    if len(sc.get("producers") or []):
+        hist["xl:several-producers-share-the-client"] += 1
     for e in r.cluster.log:
         if e.get("kind") == "request" and e.get("fault"):
             hist["xl:fault-fired:" + e["fault"]] += 1
